@@ -7,6 +7,7 @@ pub mod c15;
 pub mod c18;
 pub mod ipc;
 pub mod pq;
+pub mod spill;
 pub mod text;
 
 use arrow_array::RecordBatch;
